@@ -495,14 +495,14 @@ theorem completeFailure_preserves (cfg : KConfig) (k : Key) (wd : Bool) :
       · simp only [pure, Except.pure, Except.ok.injEq] at h3; subst h3; exact hp2
     · exact preserves_pure _ (fun s hs => filesOK_deleteHash s k hs)
 
-theorem completeSuccess_preserves (k : Key) (hh : Nat) : Preserves FilesOK (fun s => s.completeSuccess k hh) := by
+theorem completeSuccess_preserves (cfg : KConfig) (k : Key) (hh : Nat) : Preserves FilesOK (fun s => s.completeSuccess cfg k hh) := by
   intro s s' hp h
-  replace h : s.completeSuccess k hh = .ok s' := h
+  replace h : s.completeSuccess cfg k hh = .ok s' := h
   unfold KState.completeSuccess at h
   refine bind_ok h (fun s1 h1 => setStepState_preserves k .succeeded false s s1 hp h1) ?_
   intro s1 s1' hp1 hh1
   refine bind_ok hh1 (fun s2 h2 => rebuildOutdatedProducts_preserves k s1 s2 hp1 h2) ?_
-  exact preserves_pure _ (fun s hs => filesOK_setHash s k hh hs)
+  exact preserves_pure _ (fun s hs => filesOK_modify _ _ _ (fun _ h => h) (filesOK_setHash s k hh hs))
 
 /-- `Step.mark_completed` preserves state/hash consistency (both outcomes, with or without a
 deferral). -/
@@ -520,12 +520,12 @@ theorem markCompleted_preserves (cfg : KConfig) (k : Key) (nh : Option Nat) (wd 
       exact completeFailure_preserves cfg k wd s s1 hp h1
   | some hh =>
     simp only [bind, Except.bind] at h
-    cases h1 : s.completeSuccess k hh with
+    cases h1 : s.completeSuccess cfg k hh with
     | error e => simp [h1] at h
     | ok s1 =>
       simp only [h1, pure, Except.pure, Except.ok.injEq, Prod.mk.injEq] at h
       obtain ⟨rfl, _⟩ := h
-      exact completeSuccess_preserves k hh s s1 hp h1
+      exact completeSuccess_preserves cfg k hh s s1 hp h1
 
 theorem filesOK_queueDelete (s : KState) (p : String) (h : Option Nat) (hp : FilesOK s) : FilesOK (s.queueDelete p h) :=
   fun n hn => hp n hn
